@@ -240,8 +240,12 @@ func TestVerifC07_Bucket(t *testing.T) {
 }
 
 // proxyOver wires real stores behind a real ProxyStore.
-func proxyOver(clients []store.Client, strategy store.RetrievalStrategy) *store.ProxyStore {
-	return store.NewProxyStore(log.NewNopLogger(), nil, func() []store.Client { return clients }, component.Query, labels.EmptyLabels(), 0, strategy)
+func proxyOver(clients []store.Client, strategy store.RetrievalStrategy, selector ...labels.Labels) *store.ProxyStore {
+	sel := labels.EmptyLabels()
+	if len(selector) > 0 {
+		sel = selector[0]
+	}
+	return store.NewProxyStore(log.NewNopLogger(), nil, func() []store.Client { return clients }, component.Query, sel, 0, strategy)
 }
 
 func asClient(name string, srv storepb.StoreServer, exts []labels.Labels, mint, maxt int64, withoutReplica bool) store.Client {
@@ -258,6 +262,9 @@ type proxyScene struct {
 	proxy   *store.ProxyStore
 	allExts []labels.Labels
 	txt     string
+	// sel: the proxy's own selector labels (thanos query --selector-label); no store and no series
+	// carries them, matchers on them are answered by the proxy itself
+	sel labels.Labels
 }
 
 func (p *proxyScene) close() {
@@ -328,7 +335,11 @@ func genProxyScene(rt *rapid.T) *proxyScene {
 	if rapid.Bool().Draw(rt, "lazyRetrieval") {
 		strategy = store.LazyRetrieval
 	}
-	p.proxy = proxyOver(clients, strategy)
+	p.sel = labels.EmptyLabels()
+	if rapid.IntRange(0, 2).Draw(rt, "selectorLabels") == 0 {
+		p.sel = labels.FromStrings("querier", "leaf-1")
+	}
+	p.proxy = proxyOver(clients, strategy, p.sel)
 	var sb strings.Builder
 	for i, w := range p.worlds {
 		fmt.Fprintf(&sb, "TSDB%d ext=%s [%s] ", i, p.exts[i], renderWorld(w))
@@ -336,7 +347,7 @@ func genProxyScene(rt *rapid.T) *proxyScene {
 	if p.bs != nil {
 		sb.WriteString("BUCKET " + renderSpecs(p.specs))
 	}
-	fmt.Fprintf(&sb, "strategy=%s", strategy)
+	fmt.Fprintf(&sb, "strategy=%s selector=%s", strategy, p.sel)
 	p.txt = sb.String()
 	return p
 }
@@ -382,6 +393,16 @@ func TestVerifC07_Proxy(t *testing.T) {
 			if moved {
 				rec.Class("moved-out-of-C10-dup-set-class")
 			}
+			selMatcher := false
+			if !p.sel.IsEmpty() && rapid.Bool().Draw(rt, "matcherOnSelectorLabel") {
+				// a matcher the proxy's selector labels satisfy (layered queriers send them)
+				selMatcher = true
+				ms = append(ms, rapid.SampledFrom([]*labels.Matcher{
+					labels.MustNewMatcher(labels.MatchEqual, "querier", "leaf-1"),
+					labels.MustNewMatcher(labels.MatchRegexp, "querier", "leaf-.*"),
+					labels.MustNewMatcher(labels.MatchNotEqual, "querier", "leaf-2"),
+				}).Draw(rt, "selectorMatcher"))
+			}
 			q := lq{ms: ms, drop: genDrop(rt)}
 			q.mint, q.maxt = genRange(rt, dmin, dmax, marks)
 			msg, res := checkC07(rt, p.proxy, q, extAll, p.storedHas())
@@ -391,6 +412,9 @@ func TestVerifC07_Proxy(t *testing.T) {
 			nt, cl := c07Classes(res, q)
 			if p.bs != nil {
 				cl = append(cl, "proxy-with-bucket")
+			}
+			if selMatcher {
+				cl = append(cl, "matcher-on-proxy-selector-label")
 			}
 			rec.Case(fmt.Sprintf("proxy %s | %s", q, p.txt), nt, append(cl, "target-proxy")...)
 		}
